@@ -208,7 +208,7 @@ func (d *DBI) Next() (kv KV, err error) {
 		return kv, err
 	}
 	offset += n
-	if len(d.data)-offset < size {
+	if v > uint64(len(d.data)-offset) {
 		return kv, fmt.Errorf("remaining data to short for indicated size")
 	}
 
@@ -256,7 +256,7 @@ func (d *DBI) indexData() error {
 			offset += n
 
 			// Actual data
-			if len(data)-offset < size {
+			if v > uint64(len(data)-offset) {
 				return fmt.Errorf("remaining data to short for indicated size")
 			}
 			b := data[offset : offset+size : offset+size]
